@@ -106,8 +106,10 @@ def roadm_params(case, sites):
     """ROADM design bands: 'C' (single band) or 'CL' (two bands: auto-design must build a multiband line system)"""
     if case.get('eq') != 'multiband':
         return None
-    bands = [CB, LB] if case.get('bands', 'C') == 'CL' else [CB]
-    return {s: {'params': {'design_bands': bands}} for s in sites}
+    b = case.get('bands', 'C')
+    # 'CL_first': only the first site designs its egress links for two bands, 'CL_rest': every site but the first
+    two = {'C': [], 'CL': list(sites), 'CL_first': list(sites[:1]), 'CL_rest': list(sites[1:])}[b]
+    return {s: {'params': {'design_bands': [CB, LB] if s in two else [CB]}} for s in sites}
 
 
 def topology(case):
@@ -118,7 +120,7 @@ def topology(case):
             fwd, rev = chain(case['chain']), chain(case.get('chain_rev', 'F80'))
         else:
             # a two-band design must not meet operator-placed single-band amplifiers (documented as inconsistent)
-            mid = 'F80_F60' if case.get('bands') == 'CL' else 'F80_E_F70'
+            mid = 'F80_F60' if case.get('bands', 'C') != 'C' else 'F80_E_F70'
             fwd, rev = chain(['F80', mid, 'F40_U_F30'][k % 3]), chain(['F80', 'F120'][k % 2])
         ls.append((a, b, fwd, rev))
     return c.build_topology(sites, ls, roadm_params=roadm_params(case, sites))
